@@ -118,6 +118,9 @@ def harnesses(tier):
     for by in (0, 1):
         for ws in (0, 1):
             hs.append({"id": "long/seq%d/by%d" % (ws, by), "params": {"kind": "long", "with_seq": ws, "by_chrom": by}, "timeout": 900})
+    # segment ids taken from the string constants of order_gfa.py / gfa.py (Name, chr1, BO, s, b, S, L, ... with and without a digit)
+    for j, k in enumerate(range(0, len(F.names_from_source()), 11)):
+        hs.append({"id": "ids-from-source/%d/by%d" % (k, j % 2), "params": {"kind": "long", "with_seq": j % 2, "by_chrom": j % 2, "name_pos": k}, "timeout": 900})
     for style in (0, 1, 2):
         for decl in ((0, 3) if tier == "quick" else (0, 1, 2, 3)):
             hs.append({"id": "roundtrip/style%d/decl%d" % (style, decl), "params": {"kind": "roundtrip", "style": style, "decl": decl, "full": tier == "thorough"},
@@ -202,7 +205,8 @@ def bo_sorted(out):
 def check_csv(csv, out):
     segs, _, _ = F.parse_gfa(out)
     rows = [l.rstrip("\n").split(",") for l in csv]
-    body = [r for r in rows if r and r[0] != "Name"]
+    header = ["Name", "Color", "SN", "SO", "BO", "NO"]
+    body = [r for r in rows if r and r != header]  # a segment may be called Name: only the header row itself is not a node
     names = [r[0] for r in body]
     if sorted(names) != sorted(segs):
         return "CSV lists %r, graph has %r" % (sorted(names), sorted(segs))
@@ -231,6 +235,19 @@ def unique_bo_no(out):
     return None
 
 
+def source_name_lines(variant, name_pos):
+    """two small chromosomes whose segment ids come from the string constants of the analysed modules (orderfam.names_from_source)"""
+    spec = F.Spec()
+    spec.name_pos = name_pos
+    F.build_chain(spec, "chr1", ["snp", "ins"], tip_start=True, tip_end=False, naming=5)
+    F.build_chain(spec, "chr2", ["two"], tip_start=False, tip_end=True, naming=5)
+    so = {}
+    for c in ("chr1", "chr2"):
+        so.update(F.so_layout(spec, c, [3 + (i % 4) for i in range(F.n_refs(spec, c))], 0))
+    ids, links = F.orderings(spec, variant)
+    return F.gfa_text(spec, so, ids, links, with_seq=True)
+
+
 def long_lines(variant, ws):
     """four chromosomes (two long chains, one that is a single bubble, one that is a single segment), 17+ chain elements in total, so BO
     values cross the one/two digit boundary"""
@@ -252,9 +269,10 @@ def build(params):
             O = F.M["O"]
             e = stubs.env()
             v = pick(variant, [0, 1, 2, 3])
-            req = pick(order, LONG_ORDERS)
+            orders = LONG_ORDERS if "name_pos" not in params else ["chr1,chr2", "chr2,chr1", "chr1,chr2", "chr2,chr1"]
+            req = pick(order, orders)
             ws, by = bool(params["with_seq"]), bool(params["by_chrom"])
-            lines = long_lines(v, ws)
+            lines = long_lines(v, ws) if "name_pos" not in params else source_name_lines(v, params["name_pos"])
             e.files["in.gfa"] = stubs.MFile("text", lines, None)
             O.run_order_gfa("in.gfa", "out", by, chromosome_order=req, with_sequence=ws)
             names = ["out/in-%s.gfa" % c for c in req.split(",")] if by else ["out/in-complete.gfa"]
@@ -330,13 +348,14 @@ def replay(params, model, wd):
     if params["kind"] == "long":
         v, oi = model["args"]
         ws, by = bool(params["with_seq"]), bool(params["by_chrom"])
-        lines = long_lines(v, ws)
+        lines = long_lines(v, ws) if "name_pos" not in params else source_name_lines(v, params["name_pos"])
+        orders = LONG_ORDERS if "name_pos" not in params else ["chr1,chr2", "chr2,chr1", "chr1,chr2", "chr2,chr1"]
         p = os.path.join(wd, "in.gfa")
         open(p, "w").write("".join(lines))
         od = os.path.join(wd, "out")
         try:
-            O.run_order_gfa(p, od, by, chromosome_order=LONG_ORDERS[oi], with_sequence=ws)
-            names = ["in-%s.gfa" % c for c in LONG_ORDERS[oi].split(",")] if by else ["in-complete.gfa"]
+            O.run_order_gfa(p, od, by, chromosome_order=orders[oi], with_sequence=ws)
+            names = ["in-%s.gfa" % c for c in orders[oi].split(",")] if by else ["in-complete.gfa"]
             got = []
             r = None
             for nm in names:
